@@ -245,7 +245,8 @@ def run(repo, tier):
         tgt = p.target
         idx_name = tgt.elts[0].id if isinstance(tgt, ast.Tuple) and isinstance(tgt.elts[0], ast.Name) else None
         raw_name = tgt.elts[1].id if isinstance(tgt, ast.Tuple) and len(tgt.elts) > 1 and isinstance(tgt.elts[1], ast.Name) else None
-        over_source = isinstance(it, ast.Call) and it.args and 'splitlines' in unparse(it.args[0])
+        over_source = (isinstance(it, ast.Call) and it.args and isinstance(it.args[0], ast.Call) and isinstance(it.args[0].func, ast.Attribute)
+                       and it.args[0].func.attr == 'splitlines')
         path_arg = unparse(n.args[0])
         # the path variable is the function's own path parameter (or '<string>')
         path_defs = [unparse(st.value) for st in ast.walk(rl) if isinstance(st, ast.Assign) and any(isinstance(t, ast.Name) and t.id == path_arg for t in st.targets)]
